@@ -1,13 +1,121 @@
 /-
 Props/C19.lean — property theorems for C19 (Assign/AssignBuf store the canonical conversion).
+
+`assign_correct`: for the repaired chain (`AssignCfg.fixed`: AssignToStr replaces instead of appending, a nil
+pointer source is refused instead of dereferenced), every destination kind, every previous destination
+content, every source (kind, value or pointer form, value, strconv oracles) and both buffer modes, the
+observation the driver derives from the model's outcome (`assignObsOf … |>.getD {} |>.norm`, exactly what
+`Driver/GenOps.lean opAssign` hands to `assignAccepts`) is accepted by the conversion table `specConv`.
+One hypothesis, `boolSrcTyped` (implied by `Src.wt`, "the value has the representation its dynamic kind
+demands"): without it the statement is false (`untyped_source_counterexample`).
+The model of the current tree is rejected on the classes `assign-str-appends` and `assign-nil-src`.
 -/
-import InspectorModel.Lib.Assign
-import InspectorModel.Spec.Conv
+import InspectorModel.Proofs.C19
 namespace Inspector.C19
 
 /-- A foreign source never converts. -/
 theorem foreign_src_fails (a : AssignCfg) (dk : DynKind) (old : Val) (s : Src) (nb : Bool) (h : s.kind = .foreign) :
     (match assignM a dk old s nb with | .no => true | _ => false) = true := by
   cases dk <;> simp [assignM, h, DynKind.family, renderSrc]
+
+/-- The configuration the theorems are about is the one `GenCfg.fixed` induces in the driver
+(`assignObsModel`) and in `Gen/Set.lean`. -/
+theorem fixed_is_genFixed :
+    AssignCfg.fixed = { strAppendsOld := GenCfg.fixed.strAppendsOld, nilSrcPanics := GenCfg.fixed.assignNilSrcPanics } := rfl
+
+theorem repo_is_genRepo :
+    AssignCfg.repo = { strAppendsOld := GenCfg.repo.strAppendsOld, nilSrcPanics := GenCfg.repo.assignNilSrcPanics } := rfl
+
+/-- C19 for the repaired chain, at the strength the driver checks it: `noBuf` is `bufMode == "none"`,
+the spec's `withBuf` is `bufMode != "none"`. -/
+theorem assign_correct (dk : DynKind) (old : Val) (s : Src) (noBuf : Bool) (hs : boolSrcTyped dk s = true) :
+    assignAccepts dk old s (!noBuf)
+      ((assignObsOf (assignM AssignCfg.fixed dk old s noBuf) dk old s noBuf).getD {}).norm = true :=
+  accepts_of_agrees dk old s noBuf _ (conv_agrees dk old s noBuf hs)
+
+/-- The same under the natural reading of the hypothesis: the source value is of its dynamic kind. -/
+theorem assign_correct_of_wt (dk : DynKind) (old : Val) (s : Src) (noBuf : Bool) (hs : s.wt = true) :
+    assignAccepts dk old s (!noBuf)
+      ((assignObsOf (assignM AssignCfg.fixed dk old s noBuf) dk old s noBuf).getD {}).norm = true :=
+  assign_correct dk old s noBuf (boolSrcTyped_of_wt dk s hs)
+
+/-- No hypothesis at all is needed for a destination other than `*bool`. -/
+theorem assign_correct_non_bool (dk : DynKind) (old : Val) (s : Src) (noBuf : Bool) (hd : dk ≠ .bool) :
+    assignAccepts dk old s (!noBuf)
+      ((assignObsOf (assignM AssignCfg.fixed dk old s noBuf) dk old s noBuf).getD {}).norm = true :=
+  assign_correct dk old s noBuf (boolSrcTyped_of_ne_bool dk s hd)
+
+/-- The outcome-level statement behind `assign_correct`: where the table says "store v" the chain stores a
+value of the same content, where it says "fail" the chain reports that no conversion applies (and the
+observation then carries the old destination, `assignObsOf`), and the repaired chain never panics. -/
+theorem assign_outcome (dk : DynKind) (old : Val) (s : Src) (noBuf : Bool) (hs : boolSrcTyped dk s = true) :
+    convAgrees (specConv dk s) (assignM AssignCfg.fixed dk old s noBuf) = true :=
+  conv_agrees dk old s noBuf hs
+
+/-- The repaired chain never panics, whatever the source. -/
+theorem fixed_never_panics (dk : DynKind) (old : Val) (s : Src) (noBuf : Bool) :
+    (match assignM AssignCfg.fixed dk old s noBuf with | .panic => false | _ => true) = true :=
+  no_panic dk old s noBuf
+
+/-- Value and pointer forms of a source are equivalent (for every configuration). -/
+theorem ptr_form_irrelevant (a : AssignCfg) (dk : DynKind) (old : Val) (s : Src) (noBuf : Bool) (p : Bool) :
+    assignM a dk old { s with isPtr := p } noBuf = assignM a dk old s noBuf :=
+  assignM_isPtr a dk old s noBuf p
+
+/-- Text into an integer destination: a parsed value inside the destination's range is stored as it is
+(the Go conversion does not wrap). -/
+theorem wrapS_exact (dk : DynKind) (i : Int) (h : inRangeS dk.bits i = true) : wrapS dk.bits i = i :=
+  wrapS_of_inRange _ _ (bits_pos dk) h
+
+theorem wrapU_exact (dk : DynKind) (n : Nat) (h : inRangeU dk.bits n = true) : wrapU dk.bits (n : Int) = n :=
+  wrapU_of_inRange _ _ h
+
+section NonVacuity
+def intSrc (i : Int) : Src := { kind := .int, v := .int i }
+def txtSrc (t : String) (pf : PF := .err) : Src := { kind := .string, v := .str (strBytes t), pf := pf }
+
+example : (intSrc 5).wt = true ∧ boolSrcTyped .bool (intSrc 5) = true := by decide
+/-- int → *string with a pre-filled buffer: the table demands a store, and the repaired chain stores. -/
+example : (match specConv .string (intSrc 5) with | .store _ => true | _ => false) = true := by decide
+example : (match assignM AssignCfg.fixed .string (.str (strBytes "ab")) (intSrc 5) true with
+           | .ok (.str t) => t == renderInt 5 | _ => false) = true := by decide
+/-- garbage text → *int8: the table demands failure; the destination is left as it was. -/
+example : (match specConv .int8 (txtSrc "12x") with | .fail => true | _ => false) = true := by decide
+/-- "-128" → *int8 is stored, "true" → *bool is true. -/
+example : (match assignM AssignCfg.fixed .int8 (.int 7) (txtSrc "-128") true with
+           | .ok (.int i) => i == -128 | _ => false) = true := by decide
+
+/-- Without the hypothesis the statement is false: a source tagged `int` whose value is the bool `true`
+(no Go value is like that) stored into `*bool` — the table reads it as the number 0, the chain as the bool. -/
+theorem untyped_source_counterexample :
+    let s : Src := { kind := .int, v := .bool true }
+    boolSrcTyped .bool s = false ∧ s.wt = false ∧
+    assignAccepts .bool (.bool false) s false
+      ((assignObsOf (assignM AssignCfg.fixed .bool (.bool false) s true) .bool (.bool false) s true).getD {}).norm = false := by
+  decide
+
+/-- Known finding `assign-str-appends`: Assign (no buffer) of the int 5 into a `*string` holding "ab" leaves
+"ab5" in the current tree; the property demands "5". -/
+theorem repo_not_correct_str_appends :
+    assignAccepts .string (.str (strBytes "ab")) (intSrc 5) false
+      ((assignObsOf (assignM AssignCfg.repo .string (.str (strBytes "ab")) (intSrc 5) true)
+          .string (.str (strBytes "ab")) (intSrc 5) true).getD {}).norm = false := by
+  decide
+
+/-- Known finding `assign-nil-src`: a nil `*int` source offered to a destination of a foreign type must
+fail quietly; the current tree dereferences it. -/
+theorem repo_not_correct_nil_src :
+    let s : Src := { kind := .int, isPtr := true, v := .nilptr }
+    assignAccepts .foreign (.int 1) s false
+      ((assignObsOf (assignM AssignCfg.repo .foreign (.int 1) s true) .foreign (.int 1) s true).getD {}).norm = false := by
+  decide
+
+/-- The repaired chain on the same two inputs is accepted (instances of `assign_correct`). -/
+example :
+    assignAccepts .string (.str (strBytes "ab")) (intSrc 5) false
+      ((assignObsOf (assignM AssignCfg.fixed .string (.str (strBytes "ab")) (intSrc 5) true)
+          .string (.str (strBytes "ab")) (intSrc 5) true).getD {}).norm = true :=
+  assign_correct .string (.str (strBytes "ab")) (intSrc 5) true (by decide)
+end NonVacuity
 
 end Inspector.C19
